@@ -204,7 +204,7 @@ Inductive why : Type :=
   | W_air_new_layout          (* the AIR's constructor refuses the trace layout claimed by the proof *)
   | W_air_new_blowup          (* AirContext::new: blowup factor too small for the AIR's constraint degrees *)
   | W_root_of_unity           (* AirContext::new / FriVerifier::new: get_root_of_unity(n) with n > TWO_ADICITY, or domain overflow *)
-  | W_seed_padding            (* Context::to_elements: from_bytes_with_padding assertions *)
+  | W_seed_padding            (* Context::to_elements: from_bytes_with_padding (length assert, `element deserialization failed`) *)
   | W_typed_parser            (* a Panic of a stage-2 parser *)
   | W_trace_queries_len       (* TraceQueries::new: assert_eq!(queries.len(), num_segments), queries.remove(0) *)
   | W_num_partitions          (* 2usize.pow(num_partitions) *)
@@ -260,11 +260,34 @@ Fixpoint bytes_eqb (a b : bytes) : bool :=
 
 Definition ext_degree (fe : FieldExtension) : nat := match fe with FE_None => 1 | FE_Quadratic => 2 | FE_Cubic => 3 end.
 
-(* Context::to_elements::<B>: from_bytes_with_padding(half of the modulus), (ELEMENT_BYTES - 1)-byte metadata chunks *)
-Definition seed_ok (F : FieldP) (c : Context) : bool :=
-  let n := len (ctx_modulus c) in
-  let eb := Z.of_nat (fp_bytes F) in
-  (n / 2 <? eb) && (n - n / 2 <? eb) && (256 ^ (eb - 1) <=? fp_mod F).
+(* StarkField::from_bytes_with_padding(bytes): assert!(bytes.len() < ELEMENT_BYTES); zero-pad; try_from must succeed
+   (`panic!("element deserialization failed")` when the little-endian value is not below the modulus) *)
+Definition from_bytes_with_padding_ok (F : FieldP) (chunk : bytes) : bool :=
+  (len chunk <? Z.of_nat (fp_bytes F)) && (of_le_bytes chunk <? fp_mod F).
+
+(* slice.chunks(n): consecutive pieces of n bytes, the last one possibly shorter (fuel: the slice length) *)
+Fixpoint chunks_loop (fuel : nat) (n : nat) (bs : bytes) : list bytes :=
+  match fuel with
+  | O => []
+  | S f => match bs with [] => [] | _ => firstn n bs :: chunks_loop f n (skipn n bs) end
+  end.
+Definition chunks (n : nat) (bs : bytes) : list bytes := chunks_loop (length bs) n bs.
+
+(* Context::to_elements::<B> (seed of the public coin, built from the UNTRUSTED context before anything else):
+     TraceInfo::to_elements: `trace_length as u32` (a cast), and for non-empty metadata
+       `for chunk in trace_meta.chunks(chunk_len) { from_bytes_with_padding(chunk) }`   chunk_len = ELEMENT_BYTES - 1
+     the modulus bytes split in two halves, each through from_bytes_with_padding.
+   [chunk_len] is an argument so that the role of `ELEMENT_BYTES - 1` can be stated: see to_elements_total and
+   to_elements_full_chunk_refuted. *)
+Definition to_elements_ok (chunk_len : Z) (F : FieldP) (c : Context) : bool :=
+  let meta := ti_meta (ctx_trace_info c) in
+  let m := ctx_modulus c in
+  let half := Z.to_nat (len m / 2) in
+  (match meta with [] => true
+   | _ => (0 <? chunk_len) &&                                            (* chunks(0) panics *)
+          forallb (from_bytes_with_padding_ok F) (chunks (Z.to_nat chunk_len) meta) end) &&
+  from_bytes_with_padding_ok F (firstn half m) && from_bytes_with_padding_ok F (skipn half m).
+Definition META_CHUNK (F : FieldP) : Z := Z.of_nat (fp_bytes F) - 1.
 
 (* Air::new -> AirContext::new_multi_segment with the trace info and options OF THE PROOF *)
 Definition air_new (A : AirP) (ti : TraceInfo) (o : ProofOptions) : VRes unit :=
@@ -408,7 +431,7 @@ Definition verify (A : AirP) (pol : Policy) (p : Proof) (orc : Oracle) (k : Z) (
   let c := pr_context p in let ti := ctx_trace_info c in let o := ctx_options c in
   _ <== vcheck (bytes_eqb (fp_modbytes (ap_field A)) (ctx_modulus c)) E_InconsistentBaseField ;;;
   _ <== vcheck (policy_ok pol o) E_UnacceptableProofOptions ;;;
-  _ <== vassert (seed_ok (ap_field A) c) W_seed_padding ;;;
+  _ <== vassert (to_elements_ok (META_CHUNK (ap_field A)) (ap_field A) c) W_seed_padding ;;;
   _ <== air_new A ti o ;;;
   _ <== vcheck (match po_field_extension o with
                 | FE_None => true | FE_Quadratic => fp_quad (ap_field A) | FE_Cubic => fp_cubic (ap_field A) end)
